@@ -171,8 +171,10 @@ def run_case(case):
                     n_unres += 1
                     continue
                 if k == "other":
-                    # the statement does not require other characters to be preserved; counted only
+                    # the statement does not require other characters to be preserved (counted only) - but whatever comes out is a normal form
                     st["other_not_preserved"] = st.get("other_not_preserved", 0) + 1
+                    if pp(got) != got:
+                        v.append(viol({"kind": "idempotence", "class": "other"}, "U+{:04X}: normal form {!r} of {!r} normalises again to {!r}".format(cp, got, "a" + c + "b", pp(got))))
                     continue
                 v.append(viol({"kind": "single_separator", "class": k, "category": cat}, "U+{:04X} ({}) between a and b -> {!r}, expected {!r}".format(cp, cat, got, exp), exp, got))
                 continue
